@@ -12,8 +12,10 @@
 #  * MUST404 (authorised, endpoint of a disabled group addressed): 404 directly, or the mux's redirect to the clean path
 #    followed with the same credentials ends in 404; no provider call.  A redirect itself is neither an action nor a
 #    bypass.
-#  * valid token = "Authorization: Bearer <token>" or ?token=<token> (the header wins when both are present); "Basic",
-#    "bearer" and wrong tokens are invalid.
+#  * valid token = "Authorization: Bearer <token>" or ?token=<token>; "Basic <token>", an empty bearer token and wrong
+#    tokens are invalid.  A request with a wrong header token AND the valid token in the query is ambiguous (the code lets
+#    the header win): nothing is demanded for it.  Scheme-case variants ("bearer") are not generated (RFC 7235 makes the
+#    scheme case-insensitive, so accepting them would not violate the statement).
 #  * action = any call of a provider (stats, remote status, route trigger, sleep, route / forward / display-name
 #    management, file browse, shell, ICMP); for the provider-less pprof group a 200 answer.
 import os
